@@ -74,6 +74,7 @@ struct Rec {
 	/// (what notify's poll watcher does for an unreadable root)
 	sync_cb_errors: usize,
 	fired_in_create: usize,
+	multi_path_failures: usize,
 }
 
 struct Inst {
@@ -97,7 +98,7 @@ fn kind_name(k: Watcher) -> String {
 impl FakeWatcher {
 	fn call(&self, path: &Path, unwatch: bool, recursive: bool) -> notify::Result<()> {
 		let name = path.display().to_string();
-		let (failed, cb) = {
+		let (failed, multi, cb) = {
 			let mut r = self.rec.lock().unwrap();
 			let n = {
 				let e = r.attempts.entry((name.clone(), unwatch)).or_default();
@@ -108,7 +109,14 @@ impl FakeWatcher {
 			let failed = r.fail.iter().any(|(p, u, idx)| name.ends_with(p.as_str()) && *u == unwatch && idx.contains(&n));
 			if failed {
 				r.injected.push((name.clone(), unwatch));
+				if (name.len() + n) % 3 == 0 {
+					// a failure that names several paths (the watched one and two below it): one runtime error each
+					r.injected.push((format!("{name}/.verif-also-1"), unwatch));
+					r.injected.push((format!("{name}/.verif-also-2"), unwatch));
+					r.multi_path_failures += 1;
+				}
 			}
+			let multi = failed && (name.len() + n) % 3 == 0;
 			let id = self.id;
 			if unwatch {
 				if !failed {
@@ -124,7 +132,7 @@ impl FakeWatcher {
 			r.calls_since_arm += 1;
 			let c = r.calls_since_arm;
 			let pos = r.armed.iter().position(|(n, _)| *n <= c);
-			(failed, pos.map(|p| r.armed.remove(p).1))
+			(failed, multi, pos.map(|p| r.armed.remove(p).1))
 		};
 		// a config change issued at exactly this point of the worker's read-apply-wait cycle
 		if let Some(cb) = cb {
@@ -148,6 +156,9 @@ impl FakeWatcher {
 		if failed {
 			// notify errors come with or without the path they are about; either way one runtime error naming the path
 			let e = notify::Error::generic("verif: injected watcher failure");
+			if multi {
+				return Err(e.add_path(path.to_path_buf()).add_path(path.join(".verif-also-1")).add_path(path.join(".verif-also-2")));
+			}
 			Err(if name.len() % 2 == 0 || unwatch { e.add_path(path.to_path_buf()) } else { e })
 		} else {
 			Ok(())
@@ -407,6 +418,7 @@ struct Outcome {
 	log: Vec<String>,
 	watch_calls: usize,
 	fired_in_create: usize,
+	multi_path_failures: usize,
 	instances: usize,
 	errors_seen: usize,
 	hash: u64,
@@ -845,6 +857,7 @@ fn run_scn(scn: &Scn, base: &Path) -> Outcome {
 		log: r.log.iter().map(|(_, e)| format!("{e:?}").replace(&base.display().to_string(), "<base>")).collect(),
 		watch_calls: r.log.iter().filter(|(_, e)| matches!(e, WEv::Watch { .. } | WEv::Unwatch { .. })).count(),
 		fired_in_create: r.fired_in_create,
+		multi_path_failures: r.multi_path_failures,
 		instances: r.instances.len(),
 		errors_seen: out.2,
 		settled: out.3,
@@ -894,6 +907,7 @@ pub fn run_one(prop: &str, args: &ShardArgs, rng: &mut Rng, rep: &mut Report, k:
 	}
 	rep.count("watch_unwatch_calls", out.watch_calls as u64);
 	rep.count("changes_issued_from_inside_watcher_creation", out.fired_in_create as u64);
+	rep.count("injected_failures_naming_several_paths", out.multi_path_failures as u64);
 	rep.count("watcher_instances", out.instances as u64);
 	rep.count("watcher_errors_at_handler", out.errors_seen as u64);
 	rep.count("settled_histories_judged_for_once_per_attempt", out.settled as u64);
